@@ -2,8 +2,8 @@
 
 Metamorphic experiments on the implementation: for a class X of a generated module, wrapping with X on
 the ignore list must give byte-for-byte what wrapping the module without X's declaration gives (pybind:
-whole file; MATLAB: same files and contents up to the consistent renumbering of gateway ids - added when
-the MATLAB model lands).  The model (Props/C15.v) says which inputs are excluded by a recorded quirk."""
+whole file; MATLAB: the same files with the same bytes - both runs number the remaining entities consecutively, so
+consistent renumbering means identical ids).  The model (Props/C15.v) says which inputs are excluded by a recorded quirk."""
 import copy
 import multiprocessing as mp
 import random
@@ -12,6 +12,7 @@ import common
 import gen_inputs as G
 import sexp
 from props import pybcommon as pc
+from props import mlcommon as ml
 
 TRUSTED = ['CST surgery of harness/props/c15.py (class removal)']
 
@@ -114,6 +115,101 @@ def _job(job):
     return ('ok', text, text_removed, names, has_enums, (top, boost), a, b, it[1], itr[1] if itr[0] == 'ok' else None)
 
 
+def ml_names_of(items, home, orig):
+    """the names MatlabWrapper compares with its ignore list: namespace path and INSTANTIATED class name"""
+    out = []
+
+    def walk(its):
+        for it in its:
+            if it[0] == 'ns':
+                walk(it[2])
+            elif it[0] == 'iclass' and list(it[1]) == list(home) and it[2] == orig:
+                out.append('::'.join(list(it[1]) + [it[5]]))
+    walk(items)
+    return out
+
+
+def _ml_job(job):
+    k, seed = job
+    r = random.Random('c15m/%d/%d' % (seed, k))
+    g = G.Gen(r, G.Profile(max_decls=6, matlab_safe=True))
+    m = g.module()
+    if k % 3 != 0:
+        m = [('ns', r.choice(['outer', 'gtsam', 'n1']), m)]       # everything namespaced
+    sites = [(p, d) for p, d in class_sites(m) if not referenced(m, d[3]) and len(p) > 1]     # namespaced classes
+    if not sites:
+        return None
+    path, cls = r.choice(sites)
+    text = G.text(G.tokens(m))
+    text_removed = G.text(G.tokens(remove_at(m, path)))
+    it = pc.impl_items(text)
+    if it[0] != 'ok':
+        return ('skip', it[0])
+    home = home_of_path(m, path)
+    names = ml_names_of(it[1], home, cls[3])
+    every = []
+
+    def walk(its):
+        for x in its:
+            if x[0] == 'ns':
+                walk(x[2])
+            elif x[0] == 'iclass':
+                every.append('::'.join(list(x[1]) + [x[5]]))
+    walk(it[1])
+    if not names or any(every.count(n) > 1 for n in names):
+        return ('skip', 'duplicate-or-no-name')
+    boost = r.random() < 0.3
+    a = ml.impl_matlab([text], module_name='mod', ignore=names, boost=boost)
+    b = ml.impl_matlab([text_removed], module_name='mod', ignore=[], boost=boost)
+    return ('ok', text, text_removed, names, a, b)
+
+
+def matlab_half(rep, tier, seed):
+    n = 120 if tier == 'quick' else 2500
+    ml.ensure_tpl()
+    with mp.get_context('fork').Pool(14) as pool:
+        results = pool.map(_ml_job, [(k, seed) for k in range(n)], chunksize=2)
+    shown = 0
+    for res in results:
+        if res is None:
+            rep.bump('ml_no_namespaced_class')
+            continue
+        if res[0] == 'skip':
+            rep.bump('ml_skip_' + res[1])
+            continue
+        _, text, text_removed, names, a, b = res
+        rep.hit('ml/' + common.sha(text + repr(names)), a[0] == 'ok' and b[0] == 'ok')
+        if a[0] != b[0]:
+            if shown < 3:
+                shown += 1
+                rep.violation({'kind': 'counterexample', 'what': 'MATLAB: ignore and remove differ in outcome (%s vs %s)' % (a[0], b[0]),
+                               'input': text, 'ignored': names, 'removed_input': text_removed, 'ignore_run': str(a[1])[:400],
+                               'remove_run': str(b[1])[:400]})
+            continue
+        if a[0] != 'ok':
+            rep.bump('ml_both_' + a[0])
+            continue
+        if a[1] == b[1]:
+            rep.bump('ml_equal')
+            continue
+        diff = sorted(f for f in set(a[1]) | set(b[1]) if a[1].get(f) != b[1].get(f))
+        if shown < 3:
+            shown += 1
+            f0 = diff[0]
+            rep.violation({'kind': 'counterexample', 'what': 'MATLAB: ignoring a class is not deleting it (files that differ: %s)' % diff[:6],
+                           'input': text, 'ignored': names, 'removed_input': text_removed, 'file': f0,
+                           'with_ignore': (a[1].get(f0) or '<absent>')[:3000], 'with_removal': (b[1].get(f0) or '<absent>')[:3000]})
+    # recorded defect: no spelling ignores a class at global scope
+    w = 'class A { A(); }; class B { B(); };'
+    plain = ml.impl_matlab(['class B { B(); };'], module_name='mod')
+    s1 = ml.impl_matlab([w], module_name='mod', ignore=['A'])
+    s2 = ml.impl_matlab([w], module_name='mod', ignore=['::A'])
+    if plain[0] == 'ok' and not (s1[0] == 'ok' and s1[1] == plain[1]) and not (s2[0] == 'ok' and s2[1] == plain[1]):
+        rep.known('C15-matlab-global-ignore: no spelling ignores a class at global scope in the MATLAB generator: the class walk '
+                  'compares "::A" and the preamble compares "A"; "A" keeps the classdef and routines but drops the collector they use, '
+                  '"::A" raises TypeError [witness: class A { A(); }; class B { B(); }; with ignore A or ::A]')
+
+
 def run(rep, tier, seed, replay=None, proof_ok=True):
     rep.coverage['rule'] = ('generated modules; one class X per module (global or nested, templated or not, not a '
                             'typedef target): wrap(input, ignore=[all C++ names of X]) vs wrap(input without X), both '
@@ -173,4 +269,5 @@ def run(rep, tier, seed, replay=None, proof_ok=True):
                                'with_ignore': a[1][:3000], 'with_removal': b[1][:3000]})
     finally:
         model.close()
+    matlab_half(rep, tier, seed)
     return 0
